@@ -7,7 +7,7 @@ def sh(c, cwd=None):
     r = subprocess.run(c, shell=True, cwd=cwd, capture_output=True, text=True)
     return r.returncode, r.stdout + r.stderr
 props = [json.loads(l)['id'] for l in open(os.path.join(V, 'properties.jsonl'))]
-dirs = sys.argv[1:] or sorted(glob.glob(os.path.join(V, 'seeded', 'refactor-*')))
+dirs = sys.argv[1:] or sorted(glob.glob(os.path.join(V, 'seeded', 'refactor-*')) + glob.glob(os.path.join(V, 'seeded', 'tolerant-*')))
 bad = []
 for d in dirs:
     assert sh('git -C /repo status --porcelain')[1].strip() == '', '/repo not clean'
